@@ -106,7 +106,7 @@ def run(ctx):
                traces_validated_against_impl=len(lines), evaluations=len(lines), distinct_nontrivial=len(keys),
                rule="R1: spec/WatchdogImpl.tla (watchdog goroutine with write / select as separate steps, serve goroutine's non-blocking ack, peer) for budget 1, 3 rounds, three peer modes, plus the unbuffered-channel sensitivity configuration; "
                     "R2: every budget x {answer all, answer all twice, stop after the n-th round, answer only the j-th copy, failing code, silence} x {answer delivered asynchronously, answer handled before the DWR's transport write returns}; "
-                    "replayed on a real sm.Client (WatchdogInterval 60 ms, RetransmitInterval 30 ms) with a count-driven peer; server half: DWRs with boundary identifiers, with/without Origin-State-Id, to a handshaken server state machine. every script is non-trivial; distinct by script Since extended: every answer twice / j times then silence, DWA without Result-Code, the transport refusing the first DWR; DWRs naming their sender in another spelling or differently.",
+                    "replayed on a real sm.Client (WatchdogInterval 60 ms, RetransmitInterval 30 ms) with a count-driven peer; server half: DWRs with boundary identifiers, with/without Origin-State-Id, to a handshaken server state machine. every script is non-trivial; distinct by script Since extended: every answer twice / j times then silence, DWA without Result-Code, the transport refusing the first DWR; DWRs naming their sender in another spelling or differently, with Origin-State-Id 0 / 77 / max, with the T bit; a handshake that takes several watchdog intervals; a Client re-used after a connection was closed in mid-round.",
                samples=[dict(script=l["script"], obs=l["obs"]) for l in wd[0:len(wd):max(1, len(wd) // 3)]][:3],
                exhaustive=True, rejected=len(bad), impl_conformance=conf, inductive_invariant=ind, known_finding_hits={k: n for k, (n, _) in v.hits.items()})
     rc = v.finish()
